@@ -56,22 +56,49 @@ def walLevelNames : List String := ["minimal", "replica", "logical"]
 /-! ### which PostgreSQL wrote the file
 
 `pg_control_version` (PG_CONTROL_VERSION, pg_control.h) and `catalog_version_no` (CATALOG_VERSION_NO, catversion.h) are
-compile-time constants of the server.  PG_CONTROL_VERSION is 1201 in PostgreSQL 12 and 1300 in 13, 14, 15 and 16;
-CATALOG_VERSION_NO is bumped by every major release and never within a stable branch, so every released server of a
-major version writes the same pair.  (Values as in the REL_12..REL_16 stable branches; there is no PostgreSQL source in
+compile-time constants of the server.  PG_CONTROL_VERSION is 1201 in PostgreSQL 12, 1300 in 13, 14, 15 and 16 and 1700
+in 17; CATALOG_VERSION_NO is bumped by every major release and never within a stable branch, so every released server of
+a major version writes the same pair.  (Values as in the REL_12..REL_17 stable branches; there is no PostgreSQL source in
 the sandbox to anchor them on — the only genuine file, a PostgreSQL 10 pg_control, carries 1002 / 201707211.) -/
 
-/-- (major version, PG_CONTROL_VERSION, CATALOG_VERSION_NO) of the released PostgreSQL 12–16 -/
+/-- (major version, PG_CONTROL_VERSION, CATALOG_VERSION_NO) of the released PostgreSQL 12–17 -/
 def pgReleases : List (Nat × Nat × Nat) :=
-  [(12, 1201, 201909212), (13, 1300, 202007201), (14, 1300, 202107181), (15, 1300, 202209061), (16, 1300, 202307071)]
+  [(12, 1201, 201909212), (13, 1300, 202007201), (14, 1300, 202107181), (15, 1300, 202209061), (16, 1300, 202307071),
+   (17, 1700, 202406281)]
 
-/-- the major version of the PostgreSQL 12–16 server that writes this pair of version numbers; `none` for a pair no
-released 12–16 server writes (older or newer servers, development snapshots, damaged files): the Spec is silent there -/
+/-- the major version of the PostgreSQL 12–17 server that writes this pair of version numbers; `none` for a pair no
+released 12–17 server writes (older or newer servers, development snapshots, damaged files) -/
 def pgMajorOf (controlVersion catalogVersion : Nat) : Option Nat :=
   (pgReleases.find? fun r => r.2.1 == controlVersion && r.2.2 == catalogVersion).map (·.1)
 
-example : pgMajorOf 1201 201909212 = some 12 ∧ pgMajorOf 1300 202107181 = some 14 ∧ pgMajorOf 1201 202107181 = none := by
+example : pgMajorOf 1201 201909212 = some 12 ∧ pgMajorOf 1300 202107181 = some 14 ∧ pgMajorOf 1201 202107181 = none ∧
+    pgMajorOf 1700 202406281 = some 17 := by
   decide
+
+/-- the released major 12–17 whose CATALOG_VERSION_NO this is, if any (the catalog version alone identifies the major:
+the six values are distinct) -/
+def pgMajorOfCatalog (catalogVersion : Nat) : Option Nat :=
+  (pgReleases.find? fun r => r.2.2 == catalogVersion).map (·.1)
+
+/-- **What a correct tool reports as the major version** (`some 0` = "unknown"; `none` = the Spec is silent):
+* a pair a released PostgreSQL 12–17 writes → that major;
+* a control version of PostgreSQL 12 or later (≥ 1201) with a catalog version NO release 12–17 carries (a development
+  snapshot, a release newer than the table, a damaged file) → 0: no server this table knows wrote the file, and a
+  confident wrong major is worse than none;
+* silent on the rest: a release's catalog version beside a control version that release does not write (damaged
+  file; the tool lets the catalog version decide), and control versions below 1201 (PostgreSQL 11 and older: outside
+  the property, the tool's older rules apply). -/
+def majorReport (controlVersion catalogVersion : Nat) : Option Nat :=
+  match pgMajorOf controlVersion catalogVersion with
+  | some M => some M
+  | none =>
+    match pgMajorOfCatalog catalogVersion with
+    | some _ => none
+    | none => if controlVersion ≥ 1201 then some 0 else none
+
+example : majorReport 1300 202307071 = some 16 ∧ majorReport 1700 202406281 = some 17 ∧ majorReport 1201 0 = some 0 ∧
+    majorReport 1300 202406280 = some 0 ∧ majorReport 1800 202506291 = some 0 ∧ majorReport 1300 202406281 = none ∧
+    majorReport 1100 201809051 = none := by decide
 
 /-! ### the control data -/
 
